@@ -331,9 +331,47 @@ fn deep_nested_case(g: &mut Gen, ctx: &mut Ctx) -> CaseResult {
     Ok(())
 }
 
+/// `ProtectedHeader` values obtained by decoding a carrier (they retain wire bytes — zero-length,
+/// wrapped empty map, non-canonical …) encoded on their own: `to_vec` / `to_cbor_value` emit the
+/// header map of the parsed view, well-formed, and decoding it returns the same header.
+fn decoded_protected_case(g: &mut Gen, ctx: &mut Ctx) -> CaseResult {
+    use coset::AsCborValue;
+    let item = gen_msg(g, Kind::Sign1, &mut Faults::none(), 1);
+    let (bytes, enc) = crate::props::common::styled(&item, g, crate::cbor::StyleOpts::ALL);
+    if m_msg(Kind::Sign1, &enc, &mut MCtx::default()).is_err() {
+        return Ok(());
+    }
+    let v = coset::CoseSign1::from_slice(&bytes).map_err(|e| format!("valid COSE_Sign1 rejected: {:?}", e))?;
+    let mut ps = vec![v.protected.clone()];
+    for h in [&v.unprotected, &v.protected.header] {
+        for cs in &h.counter_signatures {
+            ps.push(cs.protected.clone());
+        }
+    }
+    ctx.class("type:ProtectedHeader(decoded)");
+    for p in ps {
+        let retained = p.original_data.clone().unwrap_or_default();
+        ctx.nontrivial(hash_str(&format!("dp|{}|{:?}", crate::cbor::hex_trunc(&retained, 200), p.header)));
+        ctx.sample_with(|| format!("decoded ProtectedHeader retaining {} encoded on its own", crate::cbor::hex_trunc(&retained, 32)));
+        let out = p.clone().to_vec().map_err(|e| format!("decoded ProtectedHeader (retaining {}) fails to encode: {:?}", crate::cbor::hex_trunc(&retained, 40), e))?;
+        let want = p.header.clone().to_vec().map_err(|e| format!("parsed view fails to encode: {:?}", e))?;
+        ensure!(out == want, "decoded ProtectedHeader (retaining {}): to_vec gives {} but its header map is {}", crate::cbor::hex_trunc(&retained, 40), crate::cbor::hex_trunc(&out, 60), crate::cbor::hex_trunc(&want, 60));
+        crate::cbor::read_strict(&out).map_err(|e| format!("ProtectedHeader::to_vec output is not well-formed deterministic CBOR ({:?}): {}", e, crate::cbor::hex_trunc(&out, 60)))?;
+        let val = p.clone().to_cbor_value().map_err(|e| format!("decoded ProtectedHeader (retaining {}) fails to convert: {:?}", crate::cbor::hex_trunc(&retained, 40), e))?;
+        let hv = p.header.clone().to_cbor_value().map_err(|e| format!("{:?}", e))?;
+        ensure!(same(&val, &hv), "decoded ProtectedHeader: to_cbor_value differs from the header's");
+        let back = coset::ProtectedHeader::from_slice(&out).map_err(|e| format!("ProtectedHeader::to_vec output rejected by from_slice: {:?}", e))?;
+        ensure!(same(&back.header, &p.header), "decoding ProtectedHeader::to_vec output does not return the header");
+    }
+    Ok(())
+}
+
 fn case(g: &mut Gen, ctx: &mut Ctx) -> CaseResult {
     if g.ratio(1, 25) {
         return deep_nested_case(g, ctx);
+    }
+    if g.ratio(1, 16) {
+        return decoded_protected_case(g, ctx);
     }
     match g.weighted(&[3, 6, 2, 1]) {
         0 => {
